@@ -141,6 +141,10 @@ def gen(run):
     lit_groups = [
         ("lit-exp", ["A=1E2", "A=1 E2", "A=1E 2", "A=1 E 2", "A = 1  E  2", "A=1E+2", "A=1 E + 2", "A=1E+ 2"]),
         ("lit-neg", ["A=-1", "A=- 1", "A= -1", "A = -  1"]),
+        ("lit-signs", ["A=--5", "A=- -5", "A= - - 5", "A=-  -5"]),
+        ("lit-signs2", ["A=B+-5", "A=B+ -5", "A=B + - 5"]),
+        ("lit-signs-data", ["DATA --5,+-2", "DATA - -5,+ -2", "DATA  -  - 5 , + - 2"]),
+        ("lit-signs3", ["A=-+-5", "A=- + - 5"]),
         ("lit-negexp", ["A=1.5E-1", "A=1.5 E-1", "A=1.5E -1", "A=1.5E- 1", "A=1.5 E - 1"]),
         ("lit-hex", ["A=&HFF", "A=& HFF", "A=&H FF", "A=& H FF", "A = &  H  FF"]),
         ("lit-hex-dim", ["DIM M(&HF)", "DIM M(& HF)", "DIM M(&H F)", "DIM M( & H F )"]),
